@@ -22,6 +22,7 @@ import (
 	"verif/props/c12"
 	"verif/props/c13"
 	"verif/props/c16"
+	"verif/props/c17"
 )
 
 type prop struct {
@@ -42,6 +43,7 @@ var props = map[string]prop{
 	"C12": {"exploration", c12.Run, c12.Replay},
 	"C13": {"exploration", c13.Run, c13.Replay},
 	"C16": {"model_checking", c16.Run, c16.Replay},
+	"C17": {"exploration", c17.Run, c17.Replay},
 }
 
 var ballast []byte
